@@ -275,6 +275,92 @@ def parseRule {α β : Type} (lines : List (Kw × Payload α β)) : Option (Rule
 
 end Wntr.InpText
 
+/-! ## `InpFormat` — the number formats of the INP writers (`'{:.4f}'`, `'{:12f}'`, `'{:15.11g}'`, `str(x)`)
+
+Python formats the EXACT value of the double (a rational) correctly rounded, ties to even.  Modelled on `Rat`:
+value → (sign, decimal digits, position of the point) → value. -/
+namespace Wntr.InpFormat
+
+/-- round to the nearest integer, ties to even -/
+def roundHalfEven (y : Rat) : Int :=
+  if y - y.floor < 1 / 2 then y.floor else if y - y.floor > 1 / 2 then y.floor + 1
+  else if y.floor % 2 = 0 then y.floor else y.floor + 1
+
+/-- decimal digits, least significant first -/
+def digitsRev (n : Nat) : List Nat :=
+  if n < 10 then [n] else (n % 10) :: digitsRev (n / 10)
+decreasing_by omega
+
+def ofDigitsRev : List Nat → Nat
+  | [] => 0
+  | d :: t => d + 10 * ofDigitsRev t
+
+/-- a decimal numeral: sign, digits (least significant first) and the number of digits after the point -/
+structure Dec where
+  neg : Bool
+  digits : List Nat
+  scale : Nat
+  deriving Repr, DecidableEq
+
+def Dec.value (d : Dec) : Rat :=
+  (bif d.neg then (-1 : Rat) else 1) * (ofDigitsRev d.digits : Rat) / (10 : Rat) ^ d.scale
+
+/-- `'{:.kf}'.format(x)` -/
+def fixWrite (k : Nat) (x : Rat) : Dec :=
+  ⟨decide (roundHalfEven (x * (10 : Rat) ^ k) < 0), digitsRev (roundHalfEven (x * (10 : Rat) ^ k)).natAbs, k⟩
+
+/-- the characters of a fixed-point numeral (at least one digit before the point; `-0.0000` keeps its sign as in Python) -/
+def Dec.render (d : Dec) (negZero : Bool) : String :=
+  let ds := d.digits ++ List.replicate (d.scale + 1 - d.digits.length) 0
+  let frac := (ds.take d.scale).reverse
+  let int := (ds.drop d.scale).reverse
+  let show_ := fun (l : List Nat) => String.ofList (l.map fun x => Char.ofNat (48 + x))
+  (if d.neg || negZero then "-" else "") ++ show_ int ++ (if d.scale = 0 then "" else "." ++ show_ frac)
+
+def pow10 (e : Int) : Rat := if e ≥ 0 then (10 : Rat) ^ e.toNat else 1 / (10 : Rat) ^ (-e).toNat
+
+/-- the scale `s` with `10^(N-1) ≤ a / 10^s < 10^N` (N significant digits), searched from a start value -/
+def findScale (N : Nat) (a : Rat) : Nat → Int → Int
+  | 0, s => s
+  | fuel + 1, s =>
+    if a / pow10 s < (10 : Rat) ^ (N - 1) then findScale N a fuel (s - 1)
+    else if a / pow10 s ≥ (10 : Rat) ^ N then findScale N a fuel (s + 1)
+    else s
+
+/-- `'{:.Ng}'.format(x)`: N significant digits = integer mantissa × 10^scale; `none` when the search for the scale did not
+normalise the mantissa (never observed; the bound is only claimed for normalised mantissas) -/
+def absR (x : Rat) : Rat := if x < 0 then -x else x
+
+def scaleOf (N : Nat) (x : Rat) : Int := findScale N (absR x) 700 0
+
+def sigWrite (N : Nat) (x : Rat) : Option (Int × Int) :=
+  if x = 0 then some (0, 0)
+  else if (10 : Rat) ^ (N - 1) ≤ absR x / pow10 (scaleOf N x) then some (roundHalfEven (x / pow10 (scaleOf N x)), scaleOf N x)
+  else none
+
+def sigValue (ms : Int × Int) : Rat := (ms.1 : Rat) * pow10 ms.2
+
+/-- how a numeric slot is printed (parsed from the format string by the translator) -/
+inductive Spec where
+  | fixed (k : Nat)   -- {:.kf}
+  | sig (n : Nat)     -- {:.ng}
+  | repr              -- str(x), '{}'.format(x): shortest string that reads back to the same double
+  | int               -- {:d}
+  | text              -- not a number
+  deriving Repr, DecidableEq, Inhabited
+
+/-- `have` is at least as precise as `need` -/
+def Spec.meets (have_ need : Spec) : Bool :=
+  match have_, need with
+  | .repr, _ => true
+  | .fixed k, .fixed k0 => k ≥ k0
+  | .sig n, .sig n0 => n ≥ n0
+  | .int, .int => true
+  | .text, .text => true
+  | _, _ => false
+
+end Wntr.InpFormat
+
 /-! ## `InpSchema` — the shape of the INP section writers / readers (wntr/epanet/io.py)
 
 The translator (`harness/props/c12.py`, Python `ast`) records for every section writer each value that reaches a
@@ -303,6 +389,8 @@ structure Row where
   fmt : String
   toks : List String
   const : Bool
+  /-- `fmt` parsed: how the number is printed (write rows) -/
+  spec : Wntr.InpFormat.Spec
   /-- the translator's numbering of the strings above (same string = same number; `Gen.strings`): section, name, guard tokens -/
   ids : Nat × Nat × List Nat
   deriving Repr, DecidableEq
@@ -363,10 +451,22 @@ def convPairs (fs : List Field) (rows : Table) : List (Conv × Conv) :=
     | some x, some y => some (x, y)
     | _, _ => none).eraseDups
 
+/-- a precision requirement of the specification: the written slot `ids` (section, attribute, guard) must be printed at
+least as precisely as `need` -/
+structure PrecReq where
+  what : String
+  ids : Nat × Nat × List Nat
+  need : Wntr.InpFormat.Spec
+  deriving Repr, DecidableEq
+
+def PrecReq.rows (q : PrecReq) (t : Table) : List Row := ((t.sec q.ids.1).filter fun x => x.has true q.ids && !x.const)
+
+/-- the slot exists and every row of it is precise enough -/
+def PrecReq.ok (q : PrecReq) (t : Table) : Bool := !(q.rows t).isEmpty && (q.rows t).all fun x => x.spec.meets q.need
+
 /-- rows with a conversion that no field of the specification accounts for -/
 def unclaimed (fs : List Field) (rows : List Row) : List Row :=
   rows.filter fun x => x.conv.isSome &&
     !(fs.any fun f => if x.write then x.has true f.wids else x.has false f.rids)
 
 end Wntr.InpSchema
-
